@@ -33,22 +33,48 @@ void c19_val(const char* kind, unsigned long long bits)
 }
 void c19_str(const char* s) { rec.vals.push_back(hx((unsigned)rec.at) + " :" + fieldAt(rec.at) + " :s " + hstr(s)); }
 void c19_unknown_field(void) { rec.bad++; }
-int c19_obj_equal(const void* a, const void* b) { return memcmp(a, b, 4) == 0; }
-const char* c19_obj_to_string(const void* a)
+// the pool of comparator / copier functions (see C19_shared.h)
+static int eq0(const void* a, const void* b) { return memcmp(a, b, 4) == 0; }
+static int eq1(const void* a, const void* b) { return memcmp((const char*)a + 4, (const char*)b + 4, 4) == 0; }
+static char strbuf[48];
+static const char* str0(const void* a)
 {
-    static char buf[16]; const unsigned char* p = (const unsigned char*)a;
-    snprintf(buf, sizeof buf, "o:%02x%02x%02x%02x", p[0], p[1], p[2], p[3]); return buf;
+    const unsigned char* p = (const unsigned char*)a;
+    snprintf(strbuf, sizeof strbuf, "o:%02x%02x%02x%02x", p[0], p[1], p[2], p[3]); return strbuf;
 }
-void c19_obj_copy(void* dst, const void* src) { for (int i = 0; i < 8; i++) ((unsigned char*)dst)[i] = ((const unsigned char*)src)[i] ^ 0x5a; }
+static const char* str1(const void* a)
+{
+    const unsigned char* p = (const unsigned char*)a;
+    snprintf(strbuf, sizeof strbuf, "Point(x=%u, y=%u)", p[3], p[7]); return strbuf;
+}
+static const char* str2(const void* a)
+{
+    const unsigned char* p = (const unsigned char*)a;
+    snprintf(strbuf, sizeof strbuf, "Size(%u x %u)", p[3], p[7]); return strbuf;
+}
+static void copy0(void* dst, const void* src) { for (int i = 0; i < 8; i++) ((unsigned char*)dst)[i] = ((const unsigned char*)src)[i] ^ 0x5a; }
+static void copy1(void* dst, const void* src) { for (int i = 0; i < 8; i++) ((unsigned char*)dst)[i] = (unsigned char)(((const unsigned char*)src)[7 - i] + 1); }
+const c19_eq_fn c19_eq_pool[C19_NEQ] = { eq0, eq1 };
+const c19_str_fn c19_str_pool[C19_NSTR] = { str0, str1, str2 };
+const c19_copy_fn c19_copy_pool[C19_NCOPY] = { copy0, copy1 };
 }
 
 // ------------------------------------------------------------------ the C++ interpreter
-struct ObjComparator : MockNamedValueComparator {
-    bool isEqual(const void* a, const void* b) override { return c19_obj_equal(a, b) != 0; }
-    SimpleString valueToString(const void* a) override { return SimpleString(c19_obj_to_string(a)); }
+// what a C++ user writes for "a type with this equality and this text": one comparator object per pair of functions, one copier
+// object per copier (static: they outlive every mock support, as the C++ interface requires of its user)
+struct PoolComparator : MockNamedValueComparator {
+    c19_eq_fn eq; c19_str_fn str;
+    bool isEqual(const void* a, const void* b) override { return eq(a, b) != 0; }
+    SimpleString valueToString(const void* a) override { return SimpleString(str(a)); }
 };
-struct ObjCopier : MockNamedValueCopier { void copy(void* d, const void* s) override { c19_obj_copy(d, s); } };
-static ObjComparator objComparator; static ObjCopier objCopier;
+struct PoolCopier : MockNamedValueCopier { c19_copy_fn cp; void copy(void* d, const void* s) override { cp(d, s); } };
+static PoolComparator poolComparator[C19_NEQ][C19_NSTR];
+static PoolCopier poolCopier[C19_NCOPY];
+static void initPools()
+{
+    for (int i = 0; i < C19_NEQ; i++) for (int j = 0; j < C19_NSTR; j++) { poolComparator[i][j].eq = c19_eq_pool[i]; poolComparator[i][j].str = c19_str_pool[j]; }
+    for (int i = 0; i < C19_NCOPY; i++) poolCopier[i].cp = c19_copy_pool[i];
+}
 
 static double dbl(unsigned long long bits) { double d; memcpy(&d, &bits, sizeof d); return d; }
 static unsigned long long dbits(double d) { unsigned long long b; memcpy(&b, &d, sizeof b); return b; }
@@ -208,8 +234,14 @@ static bool doSupport(const c19_op& o, const std::string& f)
     if (IS("expectedCallsLeft")) { c19_val("b", m->expectedCallsLeft()); return true; }
     if (IS("clear")) { m->clear(); return true; }
     if (IS("crashOnFailure")) { m->crashOnFailure((unsigned)Z0 != 0); return true; }
-    if (IS("installComparator")) { m->installComparator(NAME, objComparator); return true; }
-    if (IS("installCopier")) { m->installCopier(NAME, objCopier); return true; }
+    if (IS("installComparator")) {
+        if (o.nz != 2 || Z0 >= C19_NEQ || o.z[1] >= C19_NSTR) return false;
+        m->installComparator(NAME, poolComparator[Z0][o.z[1]]); return true;
+    }
+    if (IS("installCopier")) {
+        if (o.nz != 1 || Z0 >= C19_NCOPY) return false;
+        m->installCopier(NAME, poolCopier[Z0]); return true;
+    }
     if (IS("removeAllComparatorsAndCopiers")) { m->removeAllComparatorsAndCopiers(); return true; }
     return false;
 }
@@ -282,6 +314,7 @@ int main()
 {
     Toks t; Out o;
     setvbuf(stdout, NULL, _IOLBF, 0);
+    initPools();
     while (readline(t)) {
         ops.clear(); arena.clear(); outs.clear();
         while (!t.end()) {
